@@ -52,6 +52,7 @@ pub fn dispatch(name: &str) -> bool {
         "h_c10::damaged_merge" => h_c10::damaged_merge(),
         "h_c10::live_damage" => h_c10::live_damage(),
         "h_c08::commit_with_array_conflict" => h_c08::commit_with_array_conflict(),
+        "h_c08::all_operations" => h_c08::all_operations(),
         "h_tree::tree_stage" => h_tree::tree_stage(),
         "h_c19::order_pair" => h_c19::order_pair(),
         "h_c19::print_parse" => h_c19::print_parse(),
